@@ -315,6 +315,51 @@ static void rmtree(const std::string& p)
 	} else unlink(p.c_str());
 }
 
+
+// in-place restore: make every file under `to` have exactly the content of its counterpart under `from` WITHOUT replacing
+// inodes (open descriptors and SQLite connections of the resuming parent stay valid); files that only exist in `to` are removed
+static void restoretree(const std::string& from, const std::string& to)
+{
+	struct stat st;
+	if (lstat(from.c_str(), &st) != 0) return;
+	if (S_ISDIR(st.st_mode)) {
+		mkdir(to.c_str(), 0700);
+		// remove what the child added
+		DIR* d = opendir(to.c_str());
+		if (d) {
+			struct dirent* e;
+			std::vector<std::string> extra;
+			while ((e = readdir(d))) {
+				if (!strcmp(e->d_name, ".") || !strcmp(e->d_name, "..")) continue;
+				struct stat s2;
+				if (lstat((from + "/" + e->d_name).c_str(), &s2) != 0) extra.push_back(to + "/" + e->d_name);
+			}
+			closedir(d);
+			for (auto& x : extra) rmtree(x);
+		}
+		d = opendir(from.c_str());
+		if (!d) return;
+		struct dirent* e;
+		while ((e = readdir(d))) {
+			if (!strcmp(e->d_name, ".") || !strcmp(e->d_name, "..")) continue;
+			restoretree(from + "/" + e->d_name, to + "/" + e->d_name);
+		}
+		closedir(d);
+		chmod(to.c_str(), st.st_mode & 07777);
+	} else if (S_ISREG(st.st_mode)) {
+		int a = open(from.c_str(), O_RDONLY);
+		int b = open(to.c_str(), O_WRONLY | O_CREAT, 0600);
+		if (a >= 0 && b >= 0) {
+			if (ftruncate(b, 0) != 0) {}
+			char buf[65536]; ssize_t n;
+			while ((n = read(a, buf, sizeof buf)) > 0) { ssize_t w = write(b, buf, n); (void)w; }
+			fchmod(b, st.st_mode & 07777);
+		}
+		if (a >= 0) close(a);
+		if (b >= 0) close(b);
+	}
+}
+
 // ------------------------------------------------------------------------------------------------
 static bool read_line(std::string& line)
 {
@@ -689,21 +734,24 @@ int main(int, char**)
 		if (r.cmd == "RESUME") { reply("{\"resumed\":1}"); continue; }
 		if (r.cmd == "SNAP") {
 			bool copy = r.U("copy", 1) != 0;
+			bool inplace = r.U("inplace", 0) != 0;     // child keeps the original files (open descriptors stay valid); the parent restores them in place afterwards
 			unsigned long id = ++sh->snap_counter;
 			std::string nd = "../s" + std::to_string(id);
 			sh->back_ok = 0;
+			if (inplace) copytree(".", nd);
 			pid_t pid = fork();
 			if (pid < 0) { reply("{\"error\":\"fork failed\"}"); continue; }
 			if (pid == 0) {
 				depth++;
-				if (copy) { copytree(".", nd); if (chdir(nd.c_str()) != 0) { reply("{\"error\":\"chdir failed\"}"); _exit(96); } mydir = nd; }
+				if (copy && !inplace) { copytree(".", nd); if (chdir(nd.c_str()) != 0) { reply("{\"error\":\"chdir failed\"}"); _exit(96); } mydir = nd; }
 				else mydir.clear();
 				reply("{\"snap\":" + std::to_string(depth) + "}");
 				continue;
 			}
 			int st = 0;
 			while (waitpid(pid, &st, 0) < 0 && errno == EINTR) {}
-			if (copy) rmtree(nd);
+			if (inplace) restoretree(nd, ".");
+			if (copy || inplace) rmtree(nd);
 			if (sh->back_ok && WIFEXITED(st) && WEXITSTATUS(st) == 0) { sh->back_ok = 0; reply("{\"back\":1}"); }
 			else {
 				std::string d = "{\"died\":{";
